@@ -27,7 +27,7 @@ ANCHORS = [
     "acnportal.acnsim.network.charging_network:ChargingNetwork.update_pilots",
 ]
 REQUIRED = ["runs_judged", "schedules_submitted", "empty_schedules", "schedules_beyond_horizon", "schedule_in_last_period_beyond_horizon",
-            "set_pilot_calls_checked", "held_pilots_checked", "runs_with_negative_pilots_cancelling_across_stations", "plans_of_thousands_of_periods", "feasibility_queries_on_candidates_before_submitting", "runs_with_one_mapping_object_overwritten_in_place", "twin_runs", "malformed_unknown_station_rejected", "malformed_unequal_rejected", "resumed_after_rejection",
+            "set_pilot_calls_checked", "held_pilots_checked", "runs_with_negative_pilots_cancelling_across_stations", "plans_of_thousands_of_periods", "feasibility_queries_on_candidates_before_submitting", "schedules_resubmitting_views_of_the_pilot_matrix", "runs_with_one_mapping_object_overwritten_in_place", "twin_runs", "malformed_unknown_station_rejected", "malformed_unequal_rejected", "resumed_after_rejection",
             "infeasible_schedule_warnings", "probe_ev_cells_checked", "regime:mr-None", "regime:mr-1", "regime:mr-k"]
 BUDGET_S = {"quick": 240, "thorough": 3000}
 
@@ -76,6 +76,8 @@ def cases(seed, tier):
             d["scheduler"].update(mode="allrand", buffered=True, max_len=rng.choice([1, 1, 2, 3]), mr=rng.choice([1, 1, 2]))
         if rng.random() < 0.3:
             d["scheduler"]["probe_p"] = 0.6
+        if rng.random() < 0.2:
+            d["scheduler"]["resubmit_p"] = 0.6
         if rng.random() < 0.08:
             # bidirectional (V2G) stations: ranges extending below zero and schedules whose pilots cancel across stations
             for st_ in d["network"]["stations"]:
@@ -171,6 +173,8 @@ def run_case(case, obs):
         obs.ev("runs_with_negative_pilots_cancelling_across_stations")
     if case.get("long_plan"):
         obs.ev("plans_of_thousands_of_periods")
+    if getattr(sch, "resubmitted", 0):
+        obs.ev("schedules_resubmitting_views_of_the_pilot_matrix", sch.resubmitted)
     if getattr(sch, "probed", 0):
         obs.ev("feasibility_queries_on_candidates_before_submitting", sch.probed)
     wit = dict(scenario=d, malform=mal)
